@@ -34,6 +34,10 @@ Record c13_case := mkCase {
      (* the outermost function on each call shape (empty if the stack stopped): what the
         outermost wrapper received (None: not reached) and the outcome: TypeError, or what
         f saw when the wrappers forward, else [] *)
+  ;
+  k_lower_saws : list (list call)
+     (* per call shape: what the wrappers of the entered lower levels received, outermost
+        first (only with partially forwarding wrappers; [] otherwise) *)
 }.
 
 Definition rb_eqb : res binding -> res binding -> bool := res_eqb binding_eqb.
@@ -88,8 +92,9 @@ Definition agree (k : c13_case) : bool :=
   forall2b level_agree gs (k_levels k) &&
   option_eqb exn_eqb e (k_fail k) &&
   match e with
-  | None => list_eqb call_obs_eqb (map (call_top f (rev gs) (k_forward k) (k_partial k)) (k_calls k)) (k_top_calls k)
-  | Some _ => match k_top_calls k with [] => true | _ => false end
+  | None => list_eqb call_obs_eqb (map (call_top f (rev gs) (k_forward k) (k_partial k)) (k_calls k)) (k_top_calls k) &&
+            list_eqb (list_eqb call_eqb) (map (lower_saws (rev gs) (k_forward k) (k_partial k)) (k_calls k)) (k_lower_saws k)
+  | Some _ => match k_top_calls k, k_lower_saws k with [], [] => true | _, _ => false end
   end.
 
 (* ---- holds: the implementation's observations satisfy the Spec ------------------ *)
@@ -119,6 +124,20 @@ Fixpoint calls_ok (k : c13_case) (gsig : signature) (cs : list call)
       (if plain k && k_forward k then rb_eqb out d else true) &&
       calls_ok k gsig cs' direct' obs'
   | _, _, _ => false
+  end.
+
+(* the entered lower levels have the outermost signature (the steps above them are plain):
+   each of their wrappers receives what the outermost wrapper received *)
+Fixpoint lower_ok (k : c13_case) (obs : list (option call * res binding)) (lower : list (list call)) : bool :=
+  match obs, lower with
+  | [], [] => true
+  | (saw, _) :: obs', l :: lower' =>
+      list_eqb call_eqb l (match saw with
+                           | Some c' => if k_forward k then [] else repeat c' (k_partial k)
+                           | None => []
+                           end) &&
+      lower_ok k obs' lower'
+  | _, _ => false
   end.
 
 (* level by level: the own signature is the reference transformation of the
@@ -166,8 +185,9 @@ Definition holds (k : c13_case) : bool :=
   | None => false
   | Some top =>
       match k_fail k with
-      | Some _ => match k_top_calls k with [] => true | _ => false end
-      | None => calls_ok k top (k_calls k) (k_direct k) (k_top_calls k)
+      | Some _ => match k_top_calls k, k_lower_saws k with [], [] => true | _, _ => false end
+      | None => calls_ok k top (k_calls k) (k_direct k) (k_top_calls k) &&
+                lower_ok k (k_top_calls k) (k_lower_saws k)
       end
   end.
 
